@@ -49,8 +49,8 @@ def run(ctx):
     res.rule("C20-R4", "locals are assigned before use: clang's CFG-based -Werror=uninitialized family is silent on all library units; an "
                         "uninitialised local whose address is passed out is written by the callee on every path")
     res.rule("C20-R5", "padding and gaps are explicit: frames are padded with explicit zeros (C07-R1) and builders write every byte they advance over (C13-R3)")
-    res.rule("C20-R6", "no foreign memory: payload bytes are copied out of the caller's buffer only under the message-level bounds (C03-R4: isValidPacket "
-                        "guards its reads and bounds the declared length; packets are built from raw bytes only under it)")
+    res.rule("C20-R6", "no foreign memory: bytes reach a decoded packet only through in-bounds reads — the message-level bounds of C03-R4 and the "
+                        "view / pair / construction / copy obligations of C02 (R1, R1p, R2, R3) over all decode-reachable code")
     res.assumptions += ["memory the caller passes in is defined", "std::vector(n) and resize(n) value-initialise their elements (libstdc++)"]
     res.not_decided += ["anything about memory the caller passes in"]
 
@@ -215,7 +215,12 @@ def run(ctx):
     for o in sub03.obligations:
         if o["rule"] == "C03-R4":
             res.check(o["ok"], "C20-R6", "input-bounds:" + o["key"], o["loc"], o["detail"])
-    res.floor("C20-R6", 5)
+    from rules import c02
+    sub02 = c02.run(ctx)
+    for o in sub02.obligations:
+        if o["rule"] in ("C02-R1", "C02-R1p", "C02-R2", "C02-R3"):
+            res.check(o["ok"], "C20-R6", "decode-bounds:" + o["key"], o["loc"], o["detail"])
+    res.floor("C20-R6", 60)
     res.floor("C20-R1", 25, n1)
     res.floor("C20-R2", 4, n2)
     res.floor("C20-R3", 10, n3)
